@@ -148,11 +148,12 @@ package transaction
 //@   ensures [C03] checkonly: !deliver ==> bal == old(bal) && nonce == old(nonce) && ledgerDelta == old(ledgerDelta) && ledgerVolume == old(ledgerVolume) && coinVolume == old(coinVolume) && coinReserve == old(coinReserve) && swapAbs == old(swapAbs) && otherState == old(otherState) && arg2.val == old(arg2.val)
 //@   ensures [C03] rejectedfunds: result.Code != 0 || !deliver ==> ffModel == old(ffModel) && allof(frozenfunds.Model.List) == old(allof(frozenfunds.Model.List))
 //@   ensures [C03] rejectedstakes: result.Code != 0 || !deliver ==> stakeObj == old(stakeObj) && allof(candidates.stake.Value) == old(allof(candidates.stake.Value)) && wlItem == old(wlItem)
+//@   ensures [C03] rejectedcandidates: result.Code != 0 || !deliver ==> allof(candidates.Candidate.Status) == old(allof(candidates.Candidate.Status)) && allof(candidates.Candidate.JailedUntil) == old(allof(candidates.Candidate.JailedUntil))
 //@   ensures [C04,C03] accepted: result.Code == 0 && deliver ==> nonce(accs, senderOf(arg0)) == arg0.Nonce
 //@   # C05: only the sender's own balances can go down (a check redemption also debits the check's issuer)
 //@   ensures [C05] onlysender: arg0.Type != TypeRedeemCheck ==> forall c types.CoinID, a types.Address :: a != senderOf(arg0) ==> bal(accs, c, a) >= old(bal(accs, c, a))
 //@   ensures [C03] rejectedchecks: result.Code != 0 || !deliver ==> forall h types.Hash :: (h in st.Checks.usedChecks) <==> old(h in st.Checks.usedChecks)
-//@   modifies bal, nonce, ledgerDelta, ledgerVolume, coinVolume, coinReserve, swapAbs, otherState, arg2.val, accountsCache, coinsCache, commissionCache, mapof(st.Checks.usedChecks), ffModel, ffCache, ffDirtyMarks, frozenfunds.Model.List, stakeObj, candidates.stake.Value, candCache, candDirtyMarks, wlItem, wlCache
+//@   modifies bal, nonce, ledgerDelta, ledgerVolume, coinVolume, coinReserve, swapAbs, otherState, arg2.val, accountsCache, coinsCache, commissionCache, mapof(st.Checks.usedChecks), ffModel, ffCache, ffDirtyMarks, frozenfunds.Model.List, stakeObj, candidates.stake.Value, candCache, candDirtyMarks, wlItem, wlCache, candidates.Candidate.Status, candidates.Candidate.isDirty
 
 //@ func (*ExecutorV3).RunTx
 //@   serves C04 C03 C26 C27 C05
@@ -173,6 +174,7 @@ package transaction
 //@   ensures [C03,C04] failednonce: result.Code != 0 ==> (nonce == old(nonce) && otherState == old(otherState)) || lateFailure
 //@   ensures [C03] failedfunds: result.Code != 0 || !deliver ==> (ffModel == old(ffModel) && allof(frozenfunds.Model.List) == old(allof(frozenfunds.Model.List))) || lateFailure
 //@   ensures [C03] failedstakes: result.Code != 0 || !deliver ==> (stakeObj == old(stakeObj) && allof(candidates.stake.Value) == old(allof(candidates.stake.Value)) && wlItem == old(wlItem)) || lateFailure
+//@   ensures [C03] failedcandidates: result.Code != 0 || !deliver ==> (allof(candidates.Candidate.Status) == old(allof(candidates.Candidate.Status)) && allof(candidates.Candidate.JailedUntil) == old(allof(candidates.Candidate.JailedUntil))) || lateFailure
 //@   let cc = (tx.Type == TypeSellAllSwapPool || tx.Type == TypeSellAllCoin) ? dataCoin(tx.decodedData) : tx.GasCoin
 //@   ensures [C03] failedbalances: result.Code != 0 ==> select(bal, accs) == store(select(old(bal), accs), cc, select(select(bal, accs), cc)) || lateFailure
 //@   # C05: a multisig transaction is accepted only with signatures of pairwise distinct signers
@@ -621,3 +623,37 @@ package transaction
 //@   covers delivered: result.Code == 0 && deliver && tx.GasCoin == 0
 //@   loop 0 invariant grows: forall c types.CoinID, a types.Address :: bal(accs, c, a) >= old(bal(accs, c, a))
 //@   loop 0 invariant frame: nonce == old(nonce) && otherState == old(otherState) && rewardPool.val == old(rewardPool.val) && ffModel == old(ffModel) && allof(frozenfunds.Model.List) == old(allof(frozenfunds.Model.List)) && stakeObj == old(stakeObj) && allof(candidates.stake.Value) == old(allof(candidates.stake.Value)) && wlItem == old(wlItem)
+
+//@ # ---------------------------------------------------------------- candidate control (C05) and the jail gate (C18)
+//@ # accepted only for a live candidate and only from its owner or control address
+//@ func checkCandidateControl
+//@   serves C05 C18
+//@   requires tx != nil && context != nil && context.state != nil && context.state.Candidates != nil && senderKnown(tx)
+//@   ensures failcode: result != nil ==> result.Code != 0
+//@   ensures [C05] controller: result == nil ==> candExists(context.state.Candidates, pubkeyOf(data)) && candObj(context.state.Candidates, pubkeyOf(data)) != nil && (senderOf(tx) == candObj(context.state.Candidates, pubkeyOf(data)).OwnerAddress || senderOf(tx) == candObj(context.state.Candidates, pubkeyOf(data)).ControlAddress)
+//@   ensures stillknown: senderKnown(tx)
+//@   modifies candCache, senderKnown(tx)
+//@ ghost pubkeyOf(d CandidateTx) types.Pubkey
+//@ func iface CandidateTx.GetPubKey
+//@   ensures result == pubkeyOf(recv)
+//@   modifies nothing
+//@ func (SetCandidateOnData).GetPubKey
+//@   ensures own: result == data.PubKey
+//@   # definition of the view pubkeyOf for this transaction type (not a proof obligation)
+//@   ensures [assumed] view: result == pubkeyOf(data)
+//@   modifies nothing
+
+//@ # C18: a jailed candidate (jail height not yet passed) cannot be switched on; C05: only owner or control address can
+//@ func (SetCandidateOnData).Run
+//@   serves C18 C03 C04 C05 C27
+//@   implements iface Data.Run
+//@   assumes typed: tx.Type == TypeSetCandidateOnline
+//@   let snd = senderOf(tx)
+//@   let cand = candObj(st.Candidates, data.PubKey)
+//@   ensures [C18] jailgate: result.Code == 0 ==> cand != nil && old(cand.JailedUntil) < currentBlock
+//@   ensures [C05] controller: result.Code == 0 ==> snd == old(cand.OwnerAddress) || snd == old(cand.ControlAddress)
+//@   ensures [C18] switched: result.Code == 0 && deliver ==> cand.Status == candidates.CandidateStatusOnline
+//@   ensures [C18] onlythis: forall o *candidates.Candidate :: o != cand ==> o.Status == old(o.Status)
+//@   covers delivered: result.Code == 0 && deliver && tx.GasCoin == 0
+//@   loop 0 invariant grows: forall c types.CoinID, a types.Address :: bal(accs, c, a) >= old(bal(accs, c, a))
+//@   loop 0 invariant frame: nonce == old(nonce) && otherState == old(otherState) && rewardPool.val == old(rewardPool.val) && allof(candidates.Candidate.Status) == old(allof(candidates.Candidate.Status))
